@@ -74,9 +74,15 @@ def gen_fsel(rng, keys):
     if kind == 'list':
         l = sorted(rng.sample(range(n), rng.randint(1, n)))
         return kind, l, l
-    a = rng.randrange(n)
-    b = rng.randint(a + 1, n)
-    return kind, slice(a, b), list(range(a, b))
+    for _ in range(20):
+        a = rng.choice([None, rng.randrange(n), -rng.randint(1, n)])
+        b = rng.choice([None, rng.randint(1, n)])
+        st = rng.choice([None, None, 1, 2, 2, 3, 5])
+        sl = slice(a, b, st)
+        comps = list(range(*sl.indices(n)))
+        if comps:
+            return kind, sl, comps
+    return kind, slice(0, n), list(range(n))
 
 
 def run_case(seed):
